@@ -17,6 +17,7 @@ import (
 	"time"
 
 	"github.com/daeuniverse/dae/common/consts"
+	"github.com/daeuniverse/dae/component/outbound"
 	"github.com/daeuniverse/dae/component/outbound/dialer"
 	vk "github.com/daeuniverse/dae/verifkit"
 	D "github.com/daeuniverse/outbound/dialer"
@@ -26,7 +27,7 @@ import (
 func c16ConcurrentEdges(m *vk.Monitor, r *rand.Rand) {
 	log := logrus.New()
 	log.SetOutput(io.Discard)
-	log.SetLevel(logrus.PanicLevel)
+	log.SetLevel(logrus.InfoLevel) // output discarded: the code under the log-level guards runs too
 	dialer.VerifC16ResetGlobals()
 	option := &dialer.GlobalOption{Log: log, CheckInterval: 24 * time.Hour}
 	types := []*dialer.NetworkType{
@@ -81,6 +82,119 @@ func c16ConcurrentEdges(m *vk.Monitor, r *rand.Rand) {
 				fmt.Sprintf("one dead->alive transition happened (%d concurrent ReportAvailableTraffic calls) but the alive-transition callback fired %d times", reporters, got),
 				map[string]any{"reporters": reporters, "network_type": typ.String()})
 		}
+		_ = d.Close()
+	}
+}
+
+// c16ReportInsideWindow: two reports about one node and type, the second one running to
+// completion while the first one is between its state change (collection lock already released)
+// and its notification of the groups; the node's alive-transition callback, which dae invokes
+// exactly there, is used as the window. The statement: "every group containing the node sees the
+// node's state after each event". Judged at quiescence: the group's alive set, Select and (for
+// latency policies) the last connectivity callback must agree with the node's own state.
+func c16ReportInsideWindow(m *vk.Monitor, r *rand.Rand) {
+	log := logrus.New()
+	log.SetOutput(io.Discard)
+	log.SetLevel(logrus.InfoLevel)
+	dialer.VerifC16ResetGlobals()
+	option := &dialer.GlobalOption{Log: log, CheckInterval: 24 * time.Hour}
+	policies := []consts.DialerSelectionPolicy{consts.DialerSelectionPolicy_Random, consts.DialerSelectionPolicy_MinLastLatency, consts.DialerSelectionPolicy_MinAverage10Latencies, consts.DialerSelectionPolicy_MinMovingAverageLatencies}
+	rounds := vk.Scale(60, 1500)
+	for round := 0; round < rounds && m.Violations() < 5; round++ {
+		dom := r.IntN(6)
+		typ := c16Type(dom, 0)
+		pol := policies[r.IntN(len(policies))]
+		firstDies := r.IntN(2) == 0 // the first report kills an alive node (second revives it), or the other way round
+		d := dialer.NewDialer(c16NoopDialer{}, option, dialer.InstanceOption{DisableCheck: true},
+			&dialer.Property{Property: D.Property{Name: fmt.Sprintf("win-%d", round), Address: fmt.Sprintf("192.0.2.%d:443", 1+round%200), Protocol: "verif"}})
+		var bit atomic.Int32 // last group connectivity callback for typ: 1 alive, 0 not alive, -1 none yet
+		bit.Store(-1)
+		g := outbound.NewDialerGroup(option, "win", []*dialer.Dialer{d}, []*dialer.Annotation{{}},
+			outbound.DialerSelectionPolicy{Policy: pol}, func(alive bool, nt *dialer.NetworkType, isInit bool) {
+				if nt.Index() == typ.Index() {
+					if alive {
+						bit.Store(1)
+					} else {
+						bit.Store(0)
+					}
+				}
+			})
+		revive := func() {
+			if vk.C16IsDataUDP(dom) {
+				d.ReportAvailableTraffic(typ)
+			} else {
+				dialer.VerifC16ProbeOkLatency(d, typ, time.Duration(10+r.IntN(90))*time.Millisecond)
+			}
+		}
+		kill := func() { d.ReportUnavailableForced(typ, errors.New("verif: forced failure")) }
+		if !firstDies {
+			kill() // start from a dead node: the first report revives it
+		}
+		var fired atomic.Bool
+		var panicked atomic.Value
+		d.RegisterAliveTransitionCallback(func(nt *dialer.NetworkType, alive bool) {
+			if nt.Index() != typ.Index() || alive == firstDies || !fired.CompareAndSwap(false, true) {
+				return
+			}
+			done := make(chan struct{})
+			go func() {
+				defer close(done)
+				defer func() {
+					if p := recover(); p != nil {
+						panicked.Store(fmt.Sprint(p))
+					}
+				}()
+				if firstDies {
+					revive()
+				} else {
+					kill()
+				}
+			}()
+			select {
+			case <-done:
+			case <-time.After(5 * time.Second):
+				m.Count("window_second_report_blocked_5s", 1)
+			}
+		})
+		func() {
+			defer func() {
+				if p := recover(); p != nil {
+					panicked.Store(fmt.Sprint(p))
+				}
+			}()
+			if firstDies {
+				kill()
+			} else {
+				revive()
+			}
+		}()
+		m.Eval(1)
+		if !fired.Load() {
+			m.Count("window_not_reached", 1)
+			_ = g.Close()
+			_ = d.Close()
+			continue
+		}
+		m.Count("window_rounds", 1)
+		w := map[string]any{"network_type": typ.String(), "policy": string(pol), "first_report": map[bool]string{true: "forced failure of an alive node", false: "revival of a dead node"}[firstDies],
+			"second_report_inside_window": map[bool]string{true: "revival", false: "forced failure"}[firstDies]}
+		if p := panicked.Load(); p != nil {
+			m.Violation("report-inside-window/panic", "a report that ran while another report of the same node was between its state change and its group notification crashed: "+p.(string), w)
+			_ = g.Close()
+			_ = d.Close()
+			continue
+		}
+		alive := d.MustGetAlive(typ)
+		set := g.MustGetAliveDialerSet(typ)
+		inSet := set != nil && dialer.VerifC16SetHas(set, d)
+		m.Distinct(fmt.Sprintf("window|%s|%s|firstDies=%v|alive=%v", c16DomainOf(typ), pol, firstDies, alive))
+		w["node_alive"], w["in_group_alive_set"], w["last_group_connectivity_callback"] = alive, inSet, bit.Load()
+		if set != nil && inSet != alive {
+			m.Violation("group-does-not-see-node-state/reports-overlap", fmt.Sprintf("after two overlapping reports the node is alive=%v for %s but the group's alive set says %v: the earlier report's group notification was applied after the later one's", alive, typ.String(), inSet), w)
+		} else if set != nil && pol != consts.DialerSelectionPolicy_Random && bit.Load() >= 0 && (bit.Load() == 1) != alive {
+			m.Violation("connectivity-bit-out-of-sync/reports-overlap", fmt.Sprintf("after two overlapping reports the node is alive=%v for %s but the group's last connectivity callback said %v", alive, typ.String(), bit.Load() == 1), w)
+		}
+		_ = g.Close()
 		_ = d.Close()
 	}
 }
